@@ -507,7 +507,7 @@ def run(ck):
     cases = load_corpus()
     ck.count('corpus', len(cases))
     cases += [(k, t, [], False) for (k, t) in ANCHOR_TEXTS]
-    n = 280 if quick else 5000
+    n = 280 if quick else 3500
     for _ in range(n):
         cfg = gen_valid(ck.rng)
         cli = ck.rng.choice(CLI_VARIANTS)
